@@ -2,6 +2,7 @@ use crate::cell;
 use crate::cell::Cell;
 use crate::error::Error;
 use crate::error::Error::InvalidSyntax;
+use crate::number::Number;
 
 macro_rules! car {
     ($cell:expr) => {{
@@ -168,12 +169,15 @@ pub struct Transform {
 impl Transform {
     /// Weight
     ///
-    /// The number of cells the patterns and templates of the rules are made of.
+    /// The memory the rules hold, in units of one vcell: the cells their patterns,
+    /// templates and literals are made of, and the text of the strings and symbols
+    /// among them. Every pattern keeps a copy of the literals.
     pub fn weight(&self) -> usize {
-        let mut pending: Vec<&Cell> = vec![];
+        let mut pending: Vec<&Cell> = self.literals.iter().collect();
         for (pattern, template) in &self.syntax_rules {
             pending.push(&pattern.expr);
             pending.push(template);
+            pending.extend(pattern.literals.iter());
         }
         let mut weight = 0_usize;
         while let Some(cell) = pending.pop() {
@@ -184,6 +188,13 @@ impl Transform {
                     pending.push(cdr);
                 }
                 Cell::Vector(vector) => pending.extend(vector.iter()),
+                Cell::String(text) | Cell::Symbol(text) => {
+                    weight = weight.saturating_add(text.len() / std::mem::size_of::<Cell>());
+                }
+                Cell::Number(Number::BigInt(num)) => {
+                    let bytes = usize::try_from(num.bits() / 8).unwrap_or(usize::MAX);
+                    weight = weight.saturating_add(bytes / std::mem::size_of::<Cell>());
+                }
                 _ => {}
             }
         }
